@@ -81,6 +81,15 @@ def gen(seed, tier):
             case["zcfg"] = {"shape": [n + rng.randrange(1, 3)] * (d + 1)}
         elif r5 < 0.4 and not case["fdflt"]:
             case["zcfg"] = {"fib0": True}
+        # state an earlier, unrelated search left behind on the operands (saved positions) must not matter, and
+        # the same loop written a second time with a body that writes nothing offers the same coordinates and
+        # leaves the content alone
+        case["stale"] = rng.random() < 0.25
+        case["again"] = rng.random() < 0.3
+        if rng.random() < 0.15 and not case["fdflt"]:
+            # the SOURCE's fibers built with their own default 0 inside a tensor of another default: which of its
+            # elements are empty is judged by the owning rank's default
+            case["afib0"] = True
         if rng.random() < 0.2:
             # the source's top rank is declared uncompressed: the loop is offered every coordinate of its shape
             case.update({"fmtA": "U", "shapeA": n})
@@ -130,7 +139,7 @@ def run(case):
     acts = {tuple(p): (code, v) for p, code, v in case["acts"]}
     zcfg = case.get("zcfg") or {}
     z = H.build_fiber(case["z"], d + 1, 0 if (zcfg.get("fib0") and case["kind"] == "owned") else dflt)
-    a = H.build_fiber(case["a"], d + 1, dflt)
+    a = H.build_fiber(case["a"], d + 1, 0 if (case.get("afib0") and case["kind"] == "owned") else dflt)
     tz = ta = None
     if case["kind"] == "owned":
         ids = [f"R{d - k}" for k in range(d + 1)]
@@ -151,6 +160,10 @@ def run(case):
         if case.get("detachA"):
             a = a.copy(preserve_owner=False)
             ta = None
+    if case.get("stale"):
+        for f in (z, a):
+            if len(f.coords) > 1:
+                f.getPayload(f.coords[-1], start_pos=0)
     a_before = (H.snapshot(a), _ranks(ta) if ta else None)
     log = []
     side = {}
@@ -188,6 +201,23 @@ def run(case):
         side["no_exception:" + H.err_class(e)] = False
     side.pop("member_throughout", None)
     case["impl"] = {"z": H.snapshot(z), "yields": log}
+    if case.get("again") and not any(k.startswith("no_exception") for k in side):
+        def content(snap, depth, prefix=()):
+            out = []
+            for c, p in snap:
+                if depth == 0:
+                    if p != dflt:
+                        out.append((prefix + (c,), p))
+                else:
+                    out += content(p, depth - 1, prefix + (c,))
+            return out
+        c1 = content(H.snapshot(z), d)
+        try:
+            top2 = [c for c, _ in z << a]
+            side["second_pass_offers_same_coordinates"] = top2 == [r[0][0] for r in log if len(r[0]) == 1]
+            side["second_pass_without_writes_keeps_content"] = content(H.snapshot(z), d) == c1
+        except Exception as e:
+            side["second_pass:" + H.err_class(e)] = False
     side["source_unchanged"] = (H.snapshot(a), _ranks(ta) if ta else None) == a_before
     if tz is not None:
         m = H.rank_mirror(tz)
